@@ -601,10 +601,100 @@ func tagTablesPart(r *run.Run, name, clause string) {
 		})
 }
 
+// c14NamePairs: the encoder walks the library's language tables (Go maps) and looks the tables of the font
+// up by tag; some tags stand for several platform language ids.
+func c14NamePairs(r *run.Run) {
+	apple, ms := name.VerifLanguageTables()
+	type plat struct {
+		mac   bool
+		tags  []string
+		first []string // tags that are paired with every other tag
+	}
+	mk := func(mac bool, m map[uint16]string) plat {
+		cnt := map[string]int{}
+		for _, t := range m {
+			cnt[t]++
+		}
+		p := plat{mac: mac}
+		for t := range cnt {
+			p.tags = append(p.tags, t)
+		}
+		sort.Strings(p.tags)
+		for _, t := range p.tags {
+			if cnt[t] > 1 {
+				p.first = append(p.first, t) // a tag with more than one language id
+			}
+		}
+		for _, t := range p.tags {
+			if len(p.first) < 6 && cnt[t] == 1 {
+				p.first = append(p.first, t)
+			}
+		}
+		return p
+	}
+	plats := []plat{mk(true, apple), mk(false, ms)}
+	r.ExploreSharded(explore.Config{Name: "C14.name-pairs", Deadline: r.PartDeadline(0.3)},
+		mapOrderRule("name tables for two or three languages of one platform: every tag that stands for several platform language ids (and a few others) paired with every other supported tag, optionally with a third; Decode(Encode(info)) has exactly these languages with their strings"),
+		mapOrderProcs, 0,
+		func(c *explore.Ctx) {
+			var want string
+			plain, diff := underOrders(c, func(cc *explore.Ctx) string {
+				p := plats[cc.Choose(2, "platform")]
+				a := p.first[cc.Choose(len(p.first), "first tag")]
+				b := p.tags[cc.Choose(len(p.tags), "second tag")]
+				tags := []string{a, b}
+				if cc.Bool("third") {
+					tags = append(tags, p.tags[(len(p.tags)*7/11)])
+				}
+				if cc == c {
+					c.Sample(func() any { return tags })
+					c.Shard(explore.KeyOf(c.Choices()...))
+				}
+				ts := name.Tables{}
+				for i, t := range tags {
+					ts[t] = &name.Table{Family: "Family " + t, Copyright: fmt.Sprintf("(c) %d", i)}
+				}
+				var exp []string
+				for t, tb := range ts {
+					exp = append(exp, t+"="+tb.Family+"/"+tb.Copyright)
+				}
+				sort.Strings(exp)
+				want = fmt.Sprint(exp)
+				info := &name.Info{}
+				if p.mac {
+					info.Mac = ts
+				} else {
+					info.Windows = ts
+				}
+				back, err := name.Decode(info.Encode(1))
+				if err != nil {
+					return "error " + err.Error()
+				}
+				got := back.Windows
+				if p.mac {
+					got = back.Mac
+				}
+				var out []string
+				for t, tb := range got {
+					out = append(out, t+"="+tb.Family+"/"+tb.Copyright)
+				}
+				sort.Strings(out)
+				return fmt.Sprint(out)
+			})
+			c.Nontrivial()
+			c.Outcome(want)
+			if diff != "" {
+				c.Fail("C14.name", "pairs: map order", "the languages that come back depend on map iteration order:\n%s", diff)
+			} else if plain != want {
+				c.Fail("C14.name", "pairs", "languages %s come back as %s", want, plain)
+			}
+		})
+}
+
 func c14Post(r *run.Run) {
 	std := append([]string(nil), postStandardNames()...)
 	alphabet := []string{".notdef", "A", "custom", "", strings.Repeat("n", 255), "space"}
-	r.Explore(explore.Config{Name: "C14.post-names"}, "glyph-name lists: all lists of length <= 4 over {.notdef, A, custom, empty, 255-byte, space}; the standard Macintosh order, its prefixes, 259 and 1000 names, and custom-name counts around the name index 32767 and up to the largest index 65535; post.Read(Encode(x)).Names == x.Names and an independent parser sees the same names",
+	r.Explore(explore.Config{Name: "C14.post-names"}, "glyph-name lists: all lists of length <= 4 over {.notdef, A, custom, empty, 255-byte, space}; the standard Macintosh order, its prefixes, 259 and 1000 names, and custom-name counts around the name index 32767 and up to the largest index 65535; post.Read(Encode(x)).Names == x.Names and an independent parser sees the same names, also after two names were appended to the list that was read; the standard order read afterwards is unchanged",
 		func(c *explore.Ctx) {
 			var names []string
 			switch k := c.Choose(7, "family"); k {
@@ -682,6 +772,22 @@ func c14Post(r *run.Run) {
 			if has && !eq(ref, names) || !has && len(names) != 0 {
 				c.Fail("C14.post-structure", fmt.Sprintf("names format %#x", binary.BigEndian.Uint32(b)), "independent reader sees %d names, %d were written (first difference at %d)", len(ref), len(names), firstDiff(names, ref))
 			}
+			// a history: glyphs are added to the list that was read (appending to the slice Read returned), the
+			// longer list is written, and a table in the standard order is read afterwards
+			if len(names) > 0 && len(names) <= 1000 {
+				longer := append(y.Names, "A.alt", "B.alt")
+				want := append(append([]string{}, names...), "A.alt", "B.alt")
+				b2 := (&post.Info{Names: longer, UnderlineThickness: 50}).Encode()
+				ref2, has2, err := refParsePost(b2, std)
+				if err != nil || !has2 || !eq(ref2, want) {
+					c.Fail("C14.post-structure", "names appended to a list that was read", "after appending two names to the %d names read, the independent reader sees %d names (first difference at %d, error %v)", len(names), len(ref2), firstDiff(want, ref2), err)
+				}
+				v1 := make([]byte, 32)
+				v1[1] = 1
+				if z, err := post.Read(bytes.NewReader(v1)); err != nil || !eq(z.Names, std) {
+					c.Fail("C14.post", "standard order after an append", "a version 1.0 table read after names were appended to another list gives names that differ from the standard order at %d (error %v)", firstDiff(std, z.Names), err)
+				}
+			}
 		})
 }
 
@@ -715,6 +821,7 @@ func init() {
 		r.Assume = []string{"Mac strings are over the Mac Roman repertoire", "glyph names are at most 255 bytes"}
 		c14Mac(r)
 		c14Names(r)
+		c14NamePairs(r)
 		c14Tags(r)
 		c14Post(r)
 	})
